@@ -281,8 +281,7 @@ def _r2_r3_producer(run, st, work_queues):
     project = run.project
     f = st.func
     res = _producer_facts(project, f)
-    puts = [e for e in res.calls(attr="put") if e.term[1][0] == "attr" and e.term[1][1][0] == "new"
-            and e.term[1][1][1] in work_queues]
+    puts = _put_events(project, f, res, work_queues)
     if not puts:
         run.undecided("C03.R2", f, st.proc_call, "no put() on the work queue found by the term evaluator", kind="no-put")
         return
@@ -366,6 +365,10 @@ def _r2_r3_producer(run, st, work_queues):
         if sk:
             run.violated("C03.R2", f, e.node, sk, kind="put-failure-swallowed", stage=st.name)
             continue
+        hs = _helper_swallows(project, f, e)
+        if hs:
+            run.violated("C03.R2", f, e.node, hs, kind="put-helper-swallows", stage=st.name)
+            continue
         # item arity: the tuple put equals what the worker unpacks
         arity_msg = _arity_check(st, e)
         if arity_msg:
@@ -399,6 +402,71 @@ def _swallowed_put(st, put_call, loop_stmt):
                     return ("a failing put() (handler at line %d) is swallowed: the producer continues with the next "
                             "item without retrying or raising" % h.lineno)
     return None
+
+
+def _helper_swallows(project, f, put):
+    """A put through a project helper: inside the helper, a handler around the
+    put must lead back to the put (retry) or raise -- not to a normal return."""
+    if put.term[1][0] == "attr" and put.term[1][2] in ("put", "put_nowait") and put.term[1][1][0] == "new":
+        return None
+    tgt = common.resolve_callee(project, f, put.node)
+    if tgt is None:
+        return None
+    cfg = CFG(tgt.node)
+    summ = common.summarize(project, tgt)
+    qparams = [p for p in tgt.params() if "put" in summ.get(p, ())]
+    pnodes = [n for n, c in common.method_calls_on(cfg, qparams, "put")] + \
+             [n for n, c in common.method_calls_on(cfg, qparams, "put_nowait")]
+    if not pnodes:
+        return None   # nested deeper: not analysed
+    pids = {n.id for n in pnodes}
+    # the helper must not return normally without having executed a put
+    if cfg.exit.id in cfg.reachable(cfg.entry.id, avoid=pids):
+        return "helper %s can return normally without putting the item (line %d)" % (tgt.short, tgt.node.lineno)
+    for pn in pnodes:
+        for s_, blk in enclosing_stmts(tgt.node, pn.ast):
+            if isinstance(s_, ast.Try) and blk == "body":
+                for n in cfg.nodes:
+                    if n.kind == "except" and any(n.ast is h for h in s_.handlers):
+                        if cfg.exit.id in cfg.reachable(n.id, avoid=pids):
+                            return ("helper %s swallows a failed put (handler at line %d returns normally without retry)"
+                                    % (tgt.short, n.line))
+    return None
+
+
+class _Put:
+    """A put of an item onto a work queue, direct or through a project helper."""
+    def __init__(self, ev, qvar, item):
+        self.ev, self.qvar, self.item = ev, qvar, item
+        self.pc, self.node, self.term = ev.pc, ev.node, ev.term
+
+
+def _put_events(project, f, res, work_queues):
+    out = []
+    for e in res.events:
+        if e.kind != "call":
+            continue
+        fn = e.term[1]
+        if fn[0] == "attr" and fn[2] in ("put", "put_nowait") and fn[1][0] == "new" and fn[1][1] in work_queues:
+            out.append(_Put(e, fn[1][1], e.term[2][0] if e.term[2] else None))
+            continue
+        if fn[0] in ("sym", "attr"):
+            tgt = common.resolve_callee(project, f, e.node)
+            if tgt is None:
+                continue
+            summ = common.summarize(project, tgt)
+            tp = tgt.params()
+            q = item = None
+            for i, a in enumerate(e.term[2]):
+                if i < len(tp) and a[0] == "new" and a[1] in work_queues and "put" in summ.get(tp[i], ()):
+                    q = a[1]
+            if q is None:
+                continue
+            for i, a in enumerate(e.term[2]):
+                if i < len(tp) and "is-put-item" in summ.get(tp[i], ()):
+                    item = a
+            out.append(_Put(e, q, item))
+    return out
 
 
 def _has_loop(fnode):
@@ -435,11 +503,11 @@ def _show_guard(g):
 
 def _arity_check(st, put_event):
     """Item put on the queue vs what the worker unpacks from get()."""
-    arg = put_event.term[2][0] if put_event.term[2] else None
+    arg = put_event.item
     if arg is None:
         return "put() without an item"
     n_put = len(arg[1]) if arg[0] == "tuple" else None
-    qparams = [p for p, v in st.queue_params().items() if v == put_event.term[1][1][1]]
+    qparams = [p for p, v in st.queue_params().items() if v == put_event.qvar]
     if not qparams:
         return None
     qp = qparams[0]
